@@ -3,11 +3,7 @@
 // in the current ("new") integer mode Integer(0) is the empty atom, in legacy
 // mode it is the atom [0]; other integers are their minimal two's-complement
 // encoding (signed_bytes).
-pub enum Tree {
-    Atom(Seq<u8>),
-    Pair(Box<Tree>, Box<Tree>),
-}
-pub open spec fn tnil() -> Tree { Tree::Atom(Seq::<u8>::empty()) }
+//@ include spec/treedef.rs
 
 pub uninterp spec fn int_mode() -> bool;   // NewStyleIntConversion::setting() during this call
 
@@ -23,15 +19,4 @@ pub open spec fn tree_of(mode: bool, s: SExp) -> Tree
     }
 }
 
-// consensus path lookup (clvmr traverse_path): path 0 is nil; otherwise bits are
-// consumed least significant first, 0 = first, 1 = rest, the top 1 bit stops.
-pub open spec fn tree_path(p: int, t: Tree) -> Option<Tree>
-    decreases p when p >= 0
-{
-    if p == 0 { Some(tnil()) } else if p == 1 { Some(t) } else {
-        match t {
-            Tree::Pair(a, b) => if p % 2 == 0 { tree_path(p / 2, *a) } else { tree_path(p / 2, *b) },
-            Tree::Atom(_) => None,
-        }
-    }
-}
+//@ include spec/treepath.rs
